@@ -108,6 +108,52 @@ def gen_lc(ctx):
             for lim in (0, 1, 2, 65535):
                 for dis in (0, 1, 2, 3):
                     lines.append("lc %d %d %d %d %d" % (cur, lo, hi, lim, dis))
+    # the decision must not depend on how large server.max-connections is: every number of free slots
+    for mc in (1, 15, 16, 17, 48, 64, 1024, 65535):
+        for lim in sorted(set([0, 1, 2, 3, 4, 5, mc // 16, mc // 16 + 1, mc // 2, max(mc - 1, 0), mc])):
+            if lim > mc:
+                continue
+            for cur in (10, 24, 25, 28, 29):
+                for dis in (0, 1):
+                    lines.append("lc %d 25 28 %d %d %d" % (cur, lim, dis, mc))
+    return lines
+
+
+def gen_h2lim(ctx):
+    """h2d: DATA frame sequences against max-request-size; h2h: header lists against max-request-field-size"""
+    rng = ctx.rng
+    lines = []
+    sizes = [0, 1, 100, 500, 1023, 1024, 1025, 2048, 4096, 16384]
+    # exhaustive: up to 3 frames from a small alphabet, limits 0 / 1 kB, with and without Content-Length
+    alpha = [(0, 0), (1, 0), (1024, 0), (1025, 0), (500, 0), (500, 1), (0, 1), (1024, 1), (2000, 1)]
+    for maxkb in (0, 1):
+        for cl in (-1, 1000, 1024, 1500):
+            for n in (1, 2, 3):
+                import itertools
+                for fr in itertools.product(alpha, repeat=n):
+                    lines.append("h2d %d %d %s" % (maxkb, cl, " ".join("%d%s" % (a, "e" if e else "") for a, e in fr)))
+    for _ in range(6000 if ctx.quick else 60000):
+        maxkb = rng.choice([0, 1, 1, 2, 4, 16])
+        cl = rng.choice([-1, -1, -1, maxkb * 1024, maxkb * 1024 + 1, rng.randint(0, 40000)])
+        fr = []
+        total = 0
+        for _k in range(rng.randint(1, 12)):
+            a = rng.choice(sizes + [rng.randint(0, 16384), 16384, 16384])
+            if total + a > 60000:          # (above 64 kB the real code spills to temporary files: not wanted here)
+                a = 0
+            total += a
+            fr.append("%d%s" % (a, "e" if rng.random() < 0.1 else ""))
+        lines.append("h2d %d %d %s" % (maxkb, cl, " ".join(fr)))
+    pseudo = "7,3 7,4 5,1 10,1"
+    for fs in list(range(50, 60)) + [100, 255, 256, 257, 8192]:
+        lines.append("h2h %d %s" % (fs, pseudo))
+        for k, v in ((3, 0), (3, 1), (5, fs), (10, max(0, fs - 54 - 14)), (10, max(0, fs - 54 - 13)), (20, 100)):
+            lines.append("h2h %d %s %d,%d" % (fs, pseudo, k, v))
+    for _ in range(3000 if ctx.quick else 30000):
+        fs = rng.choice([64, 100, 256, 1000, 8192, 65535])
+        fl = ["%d,%d" % (rng.randint(3, 40), rng.choice([0, 1, 10, 100, rng.randint(0, max(1, fs // 2))]))
+              for _k in range(rng.randint(0, 12))]
+        lines.append(("h2h %d %s %s" % (fs, pseudo, " ".join(fl))).rstrip())
     return lines
 
 
@@ -149,8 +195,29 @@ def oracle_ct(line, out):
                 return "h2_check_timeout: idle/stalled HTTP/2 connection is not flagged"
             if due and nst not in (ST["error"], ST["resp_end"]):
                 return "h2_check_timeout: timed-out HTTP/2 connection left in the write state"
+    elif t[0] == "h2d":
+        maxb, cl = int(t[1]) * 1024, int(t[2])
+        prev_in, prev_st = 0, 0
+        ended = False
+        for fr, ob in zip(t[3:], out.split(" ")):
+            bi, st, opn, rst = ob.split(",")
+            bi, st = int(bi), int(st)
+            es = fr.endswith("e")
+            if maxb and not ended and not es and bi > prev_in and bi > maxb and prev_st == 0 and st == 0:
+                return "h2_recv_data: request body grows beyond max-request-size without a 413"
+            if maxb and bi > maxb + 65536 + 16384:
+                return "h2_recv_data: more than max-request-size + 64 kB + one frame buffered"
+            ended = ended or opn == "c"
+            prev_in, prev_st = bi, st
+    elif t[0] == "h2h":
+        fs = int(t[1])
+        total = sum(sum(int(x) for x in f.split(",")) + 4 for f in t[2:])
+        if total > fs and out == "0":
+            return "http_request_parse_header: HTTP/2 header list beyond max-request-field-size accepted"
+        if total <= fs and out.startswith("431"):
+            return "http_request_parse_header: HTTP/2 header list within max-request-field-size refused"
     elif t[0] == "lc":
-        cur, lo, hi, lim, dis = [int(x) for x in t[1:]]
+        cur, lo, hi, lim, dis = [int(x) for x in t[1:6]]
         nd = int(o[0])
         if dis == 1 and cur < lo and lim != 0 and nd != 0:
             return "overload check: load dropped but the listen sockets stay disabled"
@@ -165,7 +232,15 @@ def classify_ct(line, out):
         return "ct1:st%s:in%s:%s:%s" % (t[1], t[2], "ka" if t[3] != "1" else "first", out)
     if t[0] == "ct2":
         return "ct2:st%s:n%d:%s" % (t[1], min(len(t) - 7, 3), out)
-    return "lc:d%s:%s" % (t[5], out)
+    if t[0] == "h2d":
+        fl = set()
+        for ob in out.split(" "):
+            x = ob.split(",")
+            fl.add(("413" if x[1] == "413" else "") + x[2] + ("r" + x[3] if x[3] != "-" else ""))
+        return "h2d:%s:%s:%s" % ("lim" if t[1] != "0" else "nolim", "cl" if t[2] != "-1" else "nocl", "".join(sorted(fl)))
+    if t[0] == "h2h":
+        return "h2h:%s" % out.split("@")[0]
+    return "lc:d%s:%s:%s" % (t[5], out, "mc" if len(t) > 6 else "")
 
 
 # ====================================================================== sc (virtual time)
@@ -260,6 +335,11 @@ def gen_scenario(rng):
             else:
                 csz = rng.choice([1, 7, 16, 100, 255, 256, 512, 600, 1024, 1025])
                 cnt = rng.randint(1, 4)
+                if csz <= 256 and rng.random() < 0.5:
+                    # many small chunks: each far below max-request-size, the sum around / above it
+                    cnt = rng.choice([1024 // csz - 1, 1024 // csz, 1024 // csz + 1, 2048 // csz + 1,
+                                      rng.randint(5, 40)]) if csz >= 16 else rng.randint(5, 60)
+                    cnt = max(1, cnt)
                 B = csz * cnt
                 extra = ",%d" % csz
                 blen = cnt * (len("%x" % csz) + 2 + csz + 2) + 5
@@ -299,6 +379,45 @@ def gen_scenario(rng):
         elif a == "x":
             ops.append("x%d" % i)
             c["closed"] = True
+    return "sc " + cfg + " " + " ".join(ops)
+
+
+def gen_admission(rng):
+    """a server with a large connection limit filled to the brim, then drained a little at a time: after every
+    single departure the longest-waiting client has to be let in"""
+    eh = rng.choice(["poll", "select", "linux-sysepoll"])
+    mc = rng.choice([16, 17, 24, 32, 33, 48, 64])
+    extra = rng.randint(1, 6)
+    cfg = "eh=%s,mc=%d,mf=1024,cf=10,ri=60,wi=60,ka=60,kr=100,rs=0,fs=8192,gt=%d" % (eh, mc, rng.choice([0, 3]))
+    n = mc + extra
+    ops = ["o%d" % i for i in range(n)]
+    served = list(range(mc))
+    gone = set()
+    for _ in range(rng.randint(1, extra + 3)):
+        cand = [i for i in served if i not in gone]
+        if not cand:
+            break
+        i = rng.choice(cand)
+        how = rng.random()
+        if how < 0.5:
+            ops.append("x%d" % i)
+        elif how < 0.8:
+            ops += ["q%d,g,0,s,100,0" % i, "s%d,0" % i, "R%d" % i, "x%d" % i]
+        else:
+            ops += ["f%d" % i]
+        gone.add(i)
+        # (whoever was let in may leave later as well)
+        nxt = mc + len(gone) - 1
+        if nxt < n:
+            served.append(nxt)
+        for _k in range(rng.randint(0, 2)):
+            ops.append(rng.choice(["t", "W", "t"]))
+        if rng.random() < 0.3:
+            j = rng.choice([k for k in served if k not in gone] or [0])
+            ops += ["q%d,g,1,s,100,0" % j, "s%d,0" % j, "r%d" % j]
+    if rng.random() < 0.2:
+        ops.append("G")
+        ops.append("t")
     return "sc " + cfg + " " + " ".join(ops)
 
 
@@ -436,7 +555,7 @@ def classify_sc(line, out):
                     feats.add(str(s_))
             if c["E"]:
                 feats.add("!")
-    return "sc:%s:%s" % (cfg["eh"], "".join(sorted(feats)))
+    return "sc:%s:%s%s" % (cfg["eh"], "big:" if cfg["mc"] >= 16 else "", "".join(sorted(feats)))
 
 
 # ====================================================================== e2e (real time)
@@ -456,6 +575,8 @@ def setup_docroot(srv):
 def server_conf(cfg, h2=False):
     s = 'server.event-handler = "%s"\n' % cfg["eh"]
     s += "server.max-connections = %d\n" % cfg["mc"]
+    if cfg.get("maxfds"):
+        s += "server.max-fds = %d\n" % cfg["maxfds"]
     s += "server.max-read-idle = %d\nserver.max-write-idle = %d\nserver.max-keep-alive-idle = %d\n" % (cfg["ri"], cfg["wi"], cfg["ka"])
     s += "server.max-keep-alive-requests = %d\n" % cfg["kr"]
     s += "server.max-request-size = %d\nserver.max-request-field-size = %d\n" % (cfg["rs"], cfg["fs"])
@@ -591,6 +712,7 @@ class RtClient:
             self.cport = 0
         self.s.setblocking(False)
         self.req = b""
+        self.big = False
         self.off = 0
         self.rx = bytearray()          # heads only: body bytes are counted, not kept
         self.nbytes = 0
@@ -700,6 +822,10 @@ def run_rt(bd, line, h2=False):
                 n = int(op[1:] or 1)
                 for _ in range(n):
                     tick += 1
+                    if exited_at is not None:
+                        # the process is gone: nothing further can happen on the server side; do not wait
+                        poll_all()
+                        continue
                     while True:
                         left = t0 + tick - time.time()
                         if left <= 0:
@@ -718,6 +844,7 @@ def run_rt(bd, line, h2=False):
                     c = cl[i]
                     c.req = build_request(f[1], int(f[2]), f[3], int(f[4]), int(f[5]), int(f[6]) if len(f) > 6 else 0)
                     c.off = 0
+                    c.big = f[3] == "b"
             elif k == "s":
                 f = op[1:].split(",")
                 i = int(f[0])
@@ -726,16 +853,38 @@ def run_rt(bd, line, h2=False):
             elif k == "r":
                 i = int(op[1:])
                 if i in cl:
+                    # until-style: wait for the response to show up (a loaded machine may take seconds), then
+                    # take what is there
+                    c = cl[i]
+                    if not (c.failed or c.closed):
+                        select.select([c.s], [], [], 8.0)
                     time.sleep(0.15)
-                    cl[i].read(1 << 20)
+                    c.read(1 << 20)
             elif k == "R":
+                # drain, until-style: first wait for the answer to begin (a loaded machine may take seconds),
+                # then read until the expected amount is there / the peer closes / nothing has come for a
+                # long while, then take what trickles in behind it
                 i = int(op[1:])
                 if i in cl:
                     c = cl[i]
-                    quiet = 0
+                    dead = lambda: c.eof or c.err or c.failed or c.closed     # noqa
+                    nst = len(c.statuses)
                     end = time.time() + 20
-                    while time.time() < end and not c.eof and not c.err and quiet < 3:
-                        r, _, _ = select.select([c.s], [], [], 0.15) if not (c.failed or c.closed) else ([], [], [])
+                    while time.time() < end and not dead() and len(c.statuses) == nst and c.nbytes == 0:
+                        r, _, _ = select.select([c.s], [], [], 0.2)
+                        if r:
+                            c.read(64 << 20)
+                        poll_all()
+                    if c.big and len(c.statuses) > 0:
+                        last = time.time()
+                        while not dead() and c.nbytes < BIGSIZE and time.time() - last < 15:
+                            r, _, _ = select.select([c.s], [], [], 0.2)
+                            if r and c.read(64 << 20):
+                                last = time.time()
+                            poll_all()
+                    quiet = 0
+                    while not dead() and quiet < 3:
+                        r, _, _ = select.select([c.s], [], [], 0.15)
                         if not r:
                             quiet += 1
                             continue
@@ -857,15 +1006,21 @@ def rt_scenarios(ctx):
                                                      [("status", 0, [413]), ("fin", 0, "@a", 1)])),
         # admission: more clients than slots; the waiting ones are served when slots free up
         ("max-connections", dict(mc=3, ri=20, ka=20), lambda c: (
-            "o0 o1 o2 o3 o4 q3,g,0,s,120,0 s3,0 q4,g,0,s,120,0 s4,0 t r3 r4 "
+            "o0 o1 o2 o3 o4 q3,g,0,s,120,0 s3,0 q4,g,0,s,120,0 s4,0 t "
             "q0,g,0,s,120,0 s0,0 t R0 x0 t R3 x3 q1,g,0,s,120,0 s1,0 t R1 x1 t R4 x4 t",
             [("status", 0, [200]), ("status", 3, [200]), ("status", 1, [200]), ("status", 4, [200]), ("status", 2, [])])),
+        ("max-connections-large", dict(mc=20, ri=30, ka=30), lambda c: (
+            " ".join("o%d" % i for i in range(22)) + " q20,g,0,s,120,0 s20,0 q21,g,0,s,120,0 s21,0 t "
+            "q0,g,0,s,120,0 s0,0 t R0 x0 t R20 x20 x1 t R21 x21 t",
+            [("status", 0, [200]), ("status", 20, [200]), ("status", 21, [200]), ("status", 5, [])])),
         ("overload-stallers", dict(mc=2, ri=1), lambda c: (
             "o0@a o1@b o2 q2,g,0,s,120,0 s2,0 " + T(c["ri"] + LINGER + 4) + " R2 t",
             [("status", 2, [200]), ("fin", 0, "@a", c["ri"] + 2), ("fin", 1, "@b", c["ri"] + 2)])),
         # graceful stop: the download completes intact, idle keep-alive closes at once, nothing new is
         # served, the process exits by the deadline
-        ("graceful-download", dict(gt=6, ri=10, wi=10, ka=10), lambda c: (
+        # (the timeout is generous so that a slow machine can finish the transfer; the run does not wait for
+        #  it: the remaining ticks are skipped once the process has exited)
+        ("graceful-download", dict(gt=40, ri=60, wi=60, ka=60), lambda c: (
             "o0 q0,g,1,b,120,0 s0,0 o1 q1,g,1,s,120,0 s1,0 r1 o2 q2,g,1,s,120,0 s2,40 t G@g o3 q3,g,0,s,120,0 s3,0 t R0 "
             + T(c["gt"] + 3),
             [("bytes", 0, BIGSIZE), ("status", 0, [200]), ("status", 1, [200]), ("fin", 1, "@g", 1),
@@ -874,7 +1029,8 @@ def rt_scenarios(ctx):
             "o0 q0,g,1,b,120,0 s0,0 t G@g " + T(c["gt"] + 4),
             [("nofin", 0, "@g"), ("fin", 0, "@g", c["gt"] + 2), ("exit", "@g", c["gt"] + 2)])),
     ]
-    always3 = ("keep-alive-idle", "write-stall", "max-connections", "graceful-download", "partial-head")
+    always3 = ("keep-alive-idle", "write-stall", "max-connections", "graceful-download", "partial-head",
+               "max-connections-large")
     for name, kw, f in fams:
         hs = handlers if (not ctx.quick or name in always3) else [rng.choice(handlers)]
         for eh in hs:
@@ -951,6 +1107,9 @@ def check_rt(name, line, exp, res, model_out):
         parsed = [parse_obs(o) for o in mobs]
         if all(parsed):
             ids = sorted(parsed[-1][3].keys())
+            bulk_ids = [i for i in ids if any(op == "R%d" % i for op in ops) and any(
+                op.startswith("q%d," % i) and op.split(",")[3] == "b" for op in ops)]
+            rpos = min([ops.index("R%d" % i) for i in bulk_ids] + [len(ops)])
             for i in ids:
                 k = first_index(lambda p: i in p[3] and (p[3][i]["F"] or p[3][i]["ph"] == "."), parsed)
                 # the model shows F only while the client socket is open; a connection it shows as released
@@ -959,7 +1118,16 @@ def check_rt(name, line, exp, res, model_out):
                 k = k2 if k2 is not None else k
                 ft = res["fin_tick"].get(i)
                 closed_by_client = any(op == "x%d" % i for op in ops)
-                if k is not None and not closed_by_client:
+                # (when a client drains a big response the second in which the server gets to close depends
+                #  on the transfer rate of a loaded machine: bytes and statuses are compared, not the tick)
+                bulk = i in bulk_ids
+                if bulk:
+                    pass
+                elif k is not None and k >= rpos and not closed_by_client:
+                    # predicted during or after the bulk transfer: the event is compared, not its second
+                    if ft is None:
+                        dis.append("client %d: model predicts FIN at tick %d, none observed" % (i, mt[k]))
+                elif k is not None and not closed_by_client:
                     if ft is None:
                         dis.append("client %d: model predicts FIN at tick %d, none observed" % (i, mt[k]))
                     elif not (mt[k] - 1 <= ft <= mt[k] + 1 + SLACK):
@@ -972,6 +1140,8 @@ def check_rt(name, line, exp, res, model_out):
             if kx is not None:
                 if res["exit_tick"] is None:
                     dis.append("model predicts exit at tick %d, process still running" % mt[kx])
+                elif kx >= rpos:
+                    pass
                 elif not (mt[kx] - 1 <= res["exit_tick"] <= mt[kx] + 1 + SLACK):
                     dis.append("model predicts exit at tick %d, observed %d" % (mt[kx], res["exit_tick"]))
             elif res["exit_tick"] is not None:
@@ -980,20 +1150,47 @@ def check_rt(name, line, exp, res, model_out):
 
 
 # ---------------------------------------------------------------------- HTTP/2 (real time, predicted through ct2)
+H2_TIMING = ("h2-idle", "h2-idle-after-request", "h2-body-stall", "h2-window-stall")
+H2_LIMITS = ("h2-431", "h2-431-at-limit", "h2-413-content-length", "h2-413-data", "h2-200-at-limit",
+             "h2-graceful-download")
+MIDSIZE = 400 * 1024
+
+
 def h2_scenarios(ctx):
     hs = ["linux-sysepoll", "poll", "select"]
     out = []
-    for name in ("h2-idle", "h2-idle-after-request", "h2-body-stall", "h2-window-stall"):
+    for name in H2_TIMING:
         for eh in (hs if not ctx.quick else [ctx.rng.choice(hs)]):
             out.append((name, dict(eh=eh, mc=8, mf=1024, cf=0, ri=2, wi=2, ka=1 if name != "h2-idle" else 2, kr=100,
                                    rs=0, fs=8192, gt=4)))
+    for name in H2_LIMITS:
+        for eh in (hs if (not ctx.quick or name == "h2-graceful-download") else [ctx.rng.choice(hs)]):
+            out.append((name, dict(eh=eh, mc=8, mf=1024, cf=0, ri=8, wi=8, ka=8, kr=100, rs=1, fs=256, gt=6)))
     return out
 
 
+def h2_fields(path, extra):
+    """(name length, value length) of the request fields as the client sends them"""
+    hs = [(":method", "GET"), (":scheme", "http"), (":path", path), (":authority", "h")] + list(extra)
+    return " ".join("%d,%d" % (len(k), len(v)) for k, v in hs)
+
+
 def h2_predict(name, cfg):
-    """ct2 lines, one per second after the last client progress (time 100): the first one that reports
-    `changed` is the model's prediction"""
+    """timing scenarios: ct2 lines, one per second after the last client progress (time 100): the first one
+    that reports `changed` is the model's prediction; limit scenarios: one h2h / h2d line"""
     lines = []
+    if name == "h2-431":
+        return ["h2h %d %s" % (cfg["fs"], h2_fields("/s", [("x-pad", "a" * 600)]))]
+    if name == "h2-431-at-limit":
+        # 7+3+4 + 7+4+4 + 5+2+4 + 10+1+4 = 55; x-pad: 5 + v + 4
+        return ["h2h %d %s" % (cfg["fs"], h2_fields("/s", [("x-pad", "a" * (cfg["fs"] - 55 - 9))])),
+                "h2h %d %s" % (cfg["fs"], h2_fields("/s", [("x-pad", "a" * (cfg["fs"] - 55 - 9 + 1))]))]
+    if name == "h2-413-data":
+        return ["h2d %d -1 500 500 500" % cfg["rs"]]
+    if name == "h2-200-at-limit":
+        return ["h2d %d -1 500 524e" % cfg["rs"]]
+    if name in ("h2-413-content-length", "h2-graceful-download"):
+        return []
     for j in range(1, 12):
         if name in ("h2-idle", "h2-idle-after-request"):
             lines.append("ct2 7 100 100 %d %d %d" % (cfg["ka"], cfg["wi"], 100 + j))
@@ -1004,6 +1201,86 @@ def h2_predict(name, cfg):
     return lines
 
 
+def h2_status(c, sid=1):
+    st = e2e.h2_collect(c.frames, c.hp).get(sid)
+    if not st:
+        return None, 0, False
+    code = dict(st["headers"]).get(b":status")
+    return (int(code) if code else None), len(st["body"]), st["end"]
+
+
+def run_h2_limit(srv, name, cfg, res):
+    """returns the observation of a limit / graceful scenario in res"""
+    def conn():
+        c = e2e.H2Conn(srv.port)
+        c.pump(2.0, until=lambda f: any(x[0] == 4 and x[1] & 1 for x in f))
+        return c
+    done = lambda f: any(x[0] in (0, 1) and x[1] & 1 and x[2] == 1 for x in f) or any(x[0] == 3 for x in f)   # noqa
+    if name == "h2-431":
+        c = conn()
+        c.request(1, "GET", "/s", authority="h", extra=[("x-pad", "a" * 600)])
+        c.pump(3.0, until=done)
+        res["status"] = [h2_status(c)[0]]
+    elif name == "h2-431-at-limit":
+        res["status"] = []
+        for k in (0, 1):
+            c = conn()
+            c.request(1, "GET", "/s", authority="h", extra=[("x-pad", "a" * (cfg["fs"] - 55 - 9 + k))])
+            c.pump(3.0, until=done)
+            res["status"].append(h2_status(c)[0])
+            c.close()
+        return
+    elif name == "h2-413-content-length":
+        c = conn()
+        c.send(c.headers_frame(1, [(":method", "POST"), (":scheme", "http"), (":path", "/p.cgi"), (":authority", "h"),
+                                   ("content-length", str(cfg["rs"] * 1024 + 1))], end_stream=False))
+        c.pump(3.0, until=done)
+        res["status"] = [h2_status(c)[0]]
+    elif name == "h2-413-data":
+        c = conn()
+        c.send(c.headers_frame(1, [(":method", "POST"), (":scheme", "http"), (":path", "/p.cgi"), (":authority", "h")],
+                               end_stream=False))
+        res["status"] = []
+        for _k in range(3):
+            c.send(e2e.h2_frame(0, 0, 1, b"d" * 500))
+            c.pump(0.6, until=done)
+            res["status"].append(h2_status(c)[0])
+        c.pump(2.0, until=done)
+        res["status"].append(h2_status(c)[0])
+    elif name == "h2-200-at-limit":
+        c = conn()
+        c.send(c.headers_frame(1, [(":method", "POST"), (":scheme", "http"), (":path", "/p.cgi"), (":authority", "h")],
+                               end_stream=False))
+        c.send(e2e.h2_frame(0, 0, 1, b"d" * 500))
+        c.send(e2e.h2_frame(0, 1, 1, b"d" * (cfg["rs"] * 1024 - 500)))
+        c.pump(5.0, until=done)
+        res["status"] = [h2_status(c)[0]]
+    elif name == "h2-graceful-download":
+        # a response larger than the flow-control window is in flight when the signal arrives; finishing it
+        # needs the server to keep reading the client's WINDOW_UPDATE frames after its GOAWAY
+        c = conn()
+        c.request(1, "GET", "/m", authority="h")
+        c.pump(3.0, until=lambda f: sum(len(x[3]) for x in f if x[0] == 0) >= 60000)
+        c.pump(0.3)
+        t0 = time.time()
+        srv.proc.send_signal(signal.SIGINT)
+        c.pump(0.5)
+        c.send(e2e.h2_window_update(0, 1 << 20) + e2e.h2_window_update(1, 1 << 20))
+        c.pump(cfg["gt"] + 3.0, until=lambda f: any(x[0] == 0 and x[1] & 1 for x in f) or False)
+        code, n, end = h2_status(c)
+        res["status"] = [code]
+        res["bytes"] = n
+        res["end_stream"] = end
+        res["done_after"] = round(time.time() - t0, 2)
+        res["goaway"] = any(f[0] == 7 for f in c.frames)
+        try:
+            srv.proc.wait(cfg["gt"] + 4)
+        except Exception:       # noqa
+            pass
+        res["exit_after"] = round(time.time() - t0, 2) if srv.proc.poll() is not None else None
+    c.close()
+
+
 def run_h2(bd, name, cfg):
     res = dict(name=name, error=None, elapsed=None, goaway=False, frames=[])
     srv, err = start_server(bd, server_conf(cfg, h2=True))
@@ -1011,6 +1288,11 @@ def run_h2(bd, name, cfg):
         res["error"] = err
         return res
     try:
+        if name in H2_LIMITS:
+            with open(os.path.join(srv.docroot, "m"), "wb") as f:
+                f.write(b"z" * MIDSIZE)
+            run_h2_limit(srv, name, cfg, res)
+            return res
         c = e2e.H2Conn(srv.port)
         c.pump(2.0, until=lambda f: any(x[0] == 4 and x[1] & 1 for x in f))
         if name == "h2-idle-after-request":
@@ -1042,6 +1324,126 @@ def run_h2(bd, name, cfg):
     return res
 
 
+def check_h2(name, cfg, res, pred):
+    """(oracle verdict, correspondence disagreement) of one HTTP/2 run"""
+    if name in H2_TIMING:
+        tmo = {"h2-idle": cfg["ka"], "h2-idle-after-request": cfg["ka"], "h2-body-stall": cfg["ri"],
+               "h2-window-stall": cfg["wi"]}[name]
+        if not res.get("closed"):
+            return ("%s: HTTP/2 connection still open 12 s after the client went quiet (timeout %d s)" % (name, tmo)), None
+        if res["elapsed"] > tmo + 2 + 2:
+            return ("%s: HTTP/2 connection closed after %.1f s, bound %d + 2 ticks" % (name, res["elapsed"], tmo)), None
+        if pred:
+            j = first_index(lambda o: o.startswith("1"), pred)
+            if j is None or not (j + 1 - 1.5 <= res["elapsed"] <= j + 1 + 1 + 2):
+                return None, ("%s: closed after %.1f s, model (h2_check_timeout) predicts the sweep %s s after the "
+                              "last progress" % (name, res["elapsed"], None if j is None else j + 1))
+        return None, None
+    st = res.get("status")
+    want = {"h2-431": [431], "h2-431-at-limit": [200, 431], "h2-413-content-length": [413],
+            "h2-413-data": [None, None, 413, 413], "h2-200-at-limit": [200], "h2-graceful-download": [200]}[name]
+    if st != want:
+        return "%s: responses %s, the configured limits demand %s" % (name, st, want), None
+    if name == "h2-graceful-download":
+        if res.get("bytes") != MIDSIZE or not res.get("end_stream"):
+            return ("%s: in-flight HTTP/2 response not completed after the graceful-shutdown signal: %s of %d bytes, "
+                    "END_STREAM=%s" % (name, res.get("bytes"), MIDSIZE, res.get("end_stream"))), None
+        if res.get("exit_after") is None or res["exit_after"] > cfg["gt"] + 2 + 2:
+            return "%s: process exit %s s after the signal, graceful timeout %d" % (name, res.get("exit_after"), cfg["gt"]), None
+    if pred:
+        # what the model's limit functions say for the same field lengths / frame sizes
+        if name == "h2-431" and not pred[0].startswith("431"):
+            return None, "%s: 431 observed, model h2HeadScan says %s" % (name, pred[0])
+        if name == "h2-431-at-limit" and not (pred[0] == "0" and pred[1].startswith("431")):
+            return None, "%s: model h2HeadScan says %s" % (name, pred)
+        if name == "h2-413-data":
+            m = [int(x.split(",")[1]) or None for x in pred[0].split(" ")]
+            if m != st[:3]:
+                return None, "%s: statuses per frame %s, model h2DataStep %s" % (name, st[:3], m)
+        if name == "h2-200-at-limit" and "413" in pred[0]:
+            return None, "%s: 200 observed, model h2DataStep says %s" % (name, pred[0])
+    return None, None
+
+
+# ---------------------------------------------------------------- effective connection limit, measured
+
+def limit_cases(ctx):
+    """(configured max-connections, server.max-fds, event handler): the limit server start-up derives from them"""
+    cases = [(1000, 64), (0, 32)] if ctx.quick else [(1000, 64), (0, 32), (0, 64), (20, 64), (33, 64), (32, 64),
+                                                     (1000, 100), (25, 40), (3, 64)]
+    hs = ["linux-sysepoll", "poll"]
+    return [(mc, mf, hs[k % 2]) for k, (mc, mf) in enumerate(cases)]
+
+
+def run_limit(bd, mc, mf, eh, window=2.5):
+    """open more clients than any admissible limit, each sending one keep-alive request and leaving the
+    connection open: the number of clients answered while nobody leaves IS the effective connection limit"""
+    cfg = dict(eh=eh, mc=mc, maxfds=mf, ri=120, wi=120, ka=120, kr=100, rs=0, fs=8192, gt=1)
+    res = dict(served=None, opened=0, error=None)
+    srv, err = start_server(bd, server_conf(cfg))
+    if srv is None:
+        res["error"] = err
+        return res
+    cl = []
+    try:
+        n = max(mf, 32) // 2 + 6
+        for i in range(n):
+            c = RtClient(srv.port)
+            c.req = build_request("g", 1, "s", 120, 0, 0)
+            c.send(0)
+            cl.append(c)
+        res["opened"] = sum(1 for c in cl if not c.failed)
+        # until-style: keep collecting answers until none has arrived for `window` seconds
+        last = time.time()
+        while time.time() - last < window:
+            r, _, _ = select.select([c.s for c in cl if not c.failed and not c.statuses], [], [], 0.2)
+            for c in cl:
+                if c.s in r:
+                    before = len(c.statuses)
+                    c.read(1 << 16)
+                    if len(c.statuses) > before or c.eof or c.err:
+                        last = time.time()
+                    if c.eof or c.err:
+                        c.failed = True
+            if all(c.statuses or c.failed for c in cl):
+                break
+        res["served"] = sum(1 for c in cl if c.statuses == [200])
+        res["order_ok"] = all(c.statuses == [200] for c in cl[:res["served"]])
+        res["odd"] = [(i, c.statuses, c.eof, c.err) for i, c in enumerate(cl) if c.statuses not in ([200], [])][:5]
+    except Exception:           # noqa
+        import traceback
+        res["error"] = "driver: " + traceback.format_exc()[-600:]
+    finally:
+        for c in cl:
+            try:
+                c.s.close()
+            except OSError:
+                pass
+        srv.stop()
+        rep = srv.sanitizer_report()
+        if rep:
+            res["sanitizer"] = rep
+        res["log"] = srv.logs()[-800:]
+    return res
+
+
+def check_limit(mc, mf, res, pred):
+    """(oracle verdict, correspondence disagreement).  The oracle is the property's own wording: never more
+    connections than configured, never more than half the descriptors, and never none at all."""
+    n = res["served"]
+    if res.get("odd"):
+        return None, "unexpected answers while measuring the connection limit: %s" % (res["odd"],)
+    if mc and n > mc:
+        return "more clients served at once than max-connections allows: %d, configured %d" % (n, mc), None
+    if n > max(mf, 32) // 2:
+        return "more clients served at once than half the descriptor limit: %d, max-fds %d" % (n, mf), None
+    if n == 0:
+        return "no client is served at all (effective connection limit 0)", None
+    if pred is not None and str(n) != pred:
+        return None, "effective connection limit measured %d, model %s" % (n, pred)
+    return None, None
+
+
 # ====================================================================== run
 def run(ctx):
     exe, err = C.build_harness("h_timeout")
@@ -1050,15 +1452,21 @@ def run(ctx):
         return
     ctx.differential("check_timeout/load_check(direct calls)", [exe], "life",
                      gen_ct1(ctx) + gen_ct2(ctx) + gen_lc(ctx), oracle_ct, classify_ct)
+    ctx.differential("h2 limits(direct calls)", [exe], "life", gen_h2lim(ctx), oracle_ct, classify_ct)
     n_sc = 5000 if ctx.quick else 60000
-    sc_lines = list(FIXED_SC) + [gen_scenario(ctx.rng) for _ in range(n_sc)]
+    n_adm = 200 if ctx.quick else 2500
+    sc_lines = list(FIXED_SC) + [gen_scenario(ctx.rng) for _ in range(n_sc)] + \
+        [gen_admission(ctx.rng) for _ in range(n_adm)]
     ctx.differential("main-loop scenarios(virtual time)", [exe], "life", sc_lines, oracle_sc, classify_sc)
     ctx.exhaustive = False
     ctx.notes.append("ct1: exhaustive over state x FDEVENT_IN x request_count x version x timestamps in a "
                      "7-second window x idle settings (quick: 20%% sample) + random incl. 2^31 / 2^40 clocks; "
-                     "ct2: exhaustive up to 2 streams + random up to 8; lc: exhaustive around the watermarks; "
-                     "sc: %d fixed + %d random scripts (3 event handlers, 1-12 clients, 8-45 actions)"
-                     % (len(FIXED_SC), n_sc))
+                     "ct2: exhaustive up to 2 streams + random up to 8; lc: exhaustive around the watermarks and over "
+                     "free-slot counts for max-connections 1..65535; h2d: exhaustive up to 3 DATA frames + random "
+                     "up to 12; h2h: header lists around the limit + random; "
+                     "sc: %d fixed + %d random scripts (3 event handlers, 1-12 clients, 8-45 actions) + %d "
+                     "admission scripts (max-connections 16-64, filled, drained one departure at a time)"
+                     % (len(FIXED_SC), n_sc, n_adm))
 
     # ---------------- end to end, real time
     bd, err = e2e.build_server()
@@ -1067,22 +1475,27 @@ def run(ctx):
         return
     scen = rt_scenarios(ctx)
     h2s = h2_scenarios(ctx)
+    lims = limit_cases(ctx)
     mo = None
     if ctx.model_ok:
         lines = [s[1] for s in scen]
-        h2lines = []
+        h2lines, h2rng = [], []
         for name, cfg in h2s:
-            h2lines += h2_predict(name, cfg)
-        mo, rc, merr = C.run_model("life", lines + h2lines)
-        if rc != 0 or len(mo) != len(lines) + len(h2lines):
+            pl = h2_predict(name, cfg)
+            h2rng.append((len(h2lines), len(h2lines) + len(pl)))
+            h2lines += pl
+        mo, rc, merr = C.run_model("life", lines + h2lines + ["mcl %d %d" % (mc, mf) for mc, mf, _ in lims])
+        if rc != 0 or len(mo) != len(lines) + len(h2lines) + len(lims):
             ctx.broken.append({"kind": "model-run", "names": ["life"], "log": merr[-2000:]})
             mo = None
     t = time.time()
     with ThreadPoolExecutor(20) as ex:
         futs = [ex.submit(run_rt, bd, s[1]) for s in scen]
         h2f = [ex.submit(run_h2, bd, name, cfg) for name, cfg in h2s]
+        limf = [ex.submit(run_limit, bd, mc, mf, eh) for mc, mf, eh in lims]
         rts = [f.result() for f in futs]
         h2r = [f.result() for f in h2f]
+        limr = [f.result() for f in limf]
     ndis = nver = 0
     for k, ((name, line, exp), res) in enumerate(zip(scen, rts)):
         ctx.evaluations += 1
@@ -1111,8 +1524,6 @@ def run(ctx):
     for k, ((name, cfg), res) in enumerate(zip(h2s, h2r)):
         ctx.evaluations += 1
         ctx.keys["e2e:" + name + ":" + cfg["eh"]] += 1
-        tmo = {"h2-idle": cfg["ka"], "h2-idle-after-request": cfg["ka"], "h2-body-stall": cfg["ri"],
-               "h2-window-stall": cfg["wi"]}[name]
         rep = {"property": ctx.pid, "kind": "property-oracle", "correspondence": "e2e-h2-real-time",
                "input": "%s %s" % (name, cfg), "impl_obs": res}
         if res.get("error"):
@@ -1122,22 +1533,42 @@ def run(ctx):
         if res.get("sanitizer"):
             ctx.violation("crash:e2e:" + name, "sanitizer report in " + name, dict(rep, kind="sanitizer-or-crash"), found=True)
             continue
-        if not res.get("closed"):
-            ctx.violation("oracle:e2e:" + name, "%s: HTTP/2 connection still open 12 s after the client went quiet "
-                          "(timeout %d s)" % (name, tmo), dict(rep, oracle_verdict="not closed"), found=True)
+        pred = mo[off + h2rng[k][0]: off + h2rng[k][1]] if mo else None
+        v, d = check_h2(name, cfg, res, pred)
+        if v:
+            nver += 1
+            ctx.violation("oracle:e2e:" + name, v, dict(rep, oracle_verdict=v, model_obs=pred), found=True)
+        elif d:
+            ndis += 1
+            ctx.violation("corr:e2e:" + name, d, dict(rep, kind="correspondence", model_obs=pred), found=False)
+    off = len(scen) + (h2rng[-1][1] if (mo and h2rng) else 0)
+    for k, ((mc, mf, eh), res) in enumerate(zip(lims, limr)):
+        ctx.evaluations += 1
+        ctx.keys["e2e:conn-limit:%d:%d" % (mc, mf)] += 1
+        pred = mo[off + k] if mo else None
+        if not res.get("error") and not res.get("sanitizer"):
+            v, d = check_limit(mc, mf, res, pred)
+            if d and not v:
+                # (fewer answers than predicted may be a slow machine: measure again with a long quiet window)
+                res = run_limit(bd, mc, mf, eh, window=10.0)
+        rep = {"property": ctx.pid, "kind": "property-oracle", "correspondence": "e2e-conn-limit",
+               "input": "mcl %d %d %s" % (mc, mf, eh), "impl_obs": res, "model_obs": pred}
+        if res.get("error"):
+            ctx.violation("corr:e2e:conn-limit", "connection-limit driver error: " + res["error"][:200],
+                          dict(rep, kind="correspondence"), found=False)
             continue
-        if res["elapsed"] > tmo + 2 + 2:
-            ctx.violation("oracle:e2e:" + name, "%s: HTTP/2 connection closed after %.1f s, bound %d + 2 ticks"
-                          % (name, res["elapsed"], tmo), dict(rep, oracle_verdict="late"), found=True)
+        if res.get("sanitizer"):
+            ctx.violation("crash:e2e:conn-limit", "sanitizer report while measuring the connection limit",
+                          dict(rep, kind="sanitizer-or-crash"), found=True)
             continue
-        if mo:
-            pred = mo[off + 11 * k: off + 11 * (k + 1)]
-            j = first_index(lambda o: o.startswith("1"), pred)
-            if j is None or not (j + 1 - 1.5 <= res["elapsed"] <= j + 1 + 1 + 2):
-                ctx.violation("corr:e2e:" + name, "%s: closed after %.1f s, model (h2_check_timeout) predicts the sweep "
-                              "%s s after the last progress" % (name, res["elapsed"], None if j is None else j + 1),
-                              dict(rep, kind="correspondence", model_obs=pred), found=False)
-    ctx.streams.append({"name": "e2e-real-time(h1 scenarios + h2)", "cases": len(scen) + len(h2s),
+        v, d = check_limit(mc, mf, res, pred)
+        if v:
+            nver += 1
+            ctx.violation("oracle:e2e:conn-limit:" + re.sub(r"\d+", "N", v)[:60], v, dict(rep, oracle_verdict=v), found=True)
+        elif d:
+            ndis += 1
+            ctx.violation("corr:e2e:conn-limit", d, dict(rep, kind="correspondence"), found=False)
+    ctx.streams.append({"name": "e2e-real-time(h1 scenarios + h2 + connection limit)", "cases": len(scen) + len(h2s) + len(lims),
                         "disagreements": ndis, "oracle_hits": nver, "wall_s": round(time.time() - t, 2)})
     ctx.rule = ("distinct = (stream, event handler, set of connection phases / listen-socket states / refusal "
                 "statuses reached in a scenario) for the scenario streams; (state, interest, keep-alive, outcome) "
@@ -1164,15 +1595,29 @@ def replay_line(ctx, rep):
             if verd or dis:
                 print("VIOLATION property=%s replay=%s" % (ctx.pid, "(replayed)"))
                 return 1
+        elif line.startswith("mcl "):
+            _, mc, mf, eh = line.split(" ")
+            res = run_limit(bd, int(mc), int(mf), eh, window=6.0)
+            pred = C.run_model("life", ["mcl %s %s" % (mc, mf)])[0]
+            print("impl :", res)
+            print("model:", pred)
+            v, d = check_limit(int(mc), int(mf), res, pred[0] if pred else None) if not res.get("error") else (None, res["error"])
+            print("oracle:", v, "correspondence:", d)
+            if v or d or res.get("sanitizer"):
+                print("VIOLATION property=%s replay=%s" % (ctx.pid, "(replayed)"))
+                return 1
         elif line.startswith("h2-"):
             import ast
             name, rest = line.split(" ", 1)
             cfg = ast.literal_eval(rest)
             res = run_h2(bd, name, cfg)
-            tmo = {"h2-idle": cfg["ka"], "h2-idle-after-request": cfg["ka"], "h2-body-stall": cfg["ri"],
-                   "h2-window-stall": cfg["wi"]}[name]
-            print("impl :", res, "bound: %d + 2 ticks (+2 s slack)" % tmo)
-            if res.get("error") or res.get("sanitizer") or not res.get("closed") or res["elapsed"] > tmo + 4:
+            pl = h2_predict(name, cfg)
+            pred = C.run_model("life", pl)[0] if pl else None
+            v, d = check_h2(name, cfg, res, pred) if not res.get("error") else (res["error"], None)
+            print("impl :", res)
+            print("model:", pred)
+            print("oracle:", v, "correspondence:", d)
+            if v or d or res.get("sanitizer"):
                 print("VIOLATION property=%s replay=%s" % (ctx.pid, "(replayed)"))
                 return 1
         return 0
